@@ -65,6 +65,8 @@ func runC08(s *Sim) {
 	bc := BrokerCfg{AutoReq: false, AutoAck: false, AutoPong: true, AutoCallAck: false, AutoAckComplete: true,
 		AliasInAck: t.Bool("alias-in-ack", 1, 2)}
 	y := newSys(s, bc)
+	// the application's reconnected handler calls back into the connection (with a deadline)
+	y.ReenterOnReconnected = t.Bool("api-call-from-reconnected-handler", 1, 3)
 	if t.Bool("json", 1, 4) {
 		y.Enc = iscp.EncodingNameJSON
 	}
@@ -490,6 +492,7 @@ func runC08(s *Sim) {
 			s.Violate("C08.ctx-ignored", "final:Conn.Close", "Conn.Close with a 20 s deadline does not return after target=%s behaviour=%s", kind, behaviour)
 		}
 	}
+	y.judgeHandlerCalls("C08.ctx-ignored")
 	y.teardown()
 }
 
